@@ -86,6 +86,7 @@ MsgDrop(t) == Str(SelectSeq(t, LAMBDA c : c # NL))
 \*   jparse : the line parses as JSON whenever nothing needs escaping
 \*   jmemb  : the parsed object holds timestamp, source location, thread, logger, level, template
 \*   jpairs : ... and the pairs, in order
+\*   logjkeys : LOGJ_ statements only (e.varnames non-empty): keys are the variable names, in order
 HasMember(ms, v) == \E i \in 1..Len(ms) : ms[i][2] = v
 PairsAt(ms, ps, off) == \A i \in 1..Len(ps) : ms[off + i] = ps[i]
 HasPairs(ms, ps) == Len(ps) = 0 \/ \E off \in 0..(Len(ms) - Len(ps)) : PairsAt(ms, ps, off)
@@ -96,7 +97,10 @@ Failures(e, r) ==
       expPairs == [i \in 1..e.nargs |-> <<IF i <= nf THEN Str(r.keys[i].name) ELSE e.pairs[i][1], o.vals[i]>>]
       j == e.json
       mustParse == ~j.needesc
-  IN  (IF e.text = o.text THEN {} ELSE {"text"})
+  IN  \* o.textnt = o.text without one trailing newline (the backend may strip it from the message)
+      (IF e.text = o.text \/ e.text = o.textnt THEN {} ELSE {"text"})
+      \* statements written through the LOGJ_ macros: the i-th key is the i-th variable name of the call
+      \cup (IF \A i \in 1..Len(e.varnames) : i <= Len(e.pairs) => e.pairs[i][1] = e.varnames[i] THEN {} ELSE {"logjkeys"})
       \cup (IF Len(e.pairs) = e.nargs THEN {} ELSE {"npairs"})
       \cup (IF \A i \in 1..nf : i <= Len(e.pairs) => e.pairs[i][1] = Str(r.keys[i].name) THEN {} ELSE {"keys"})
       \cup (IF \A i \in 1..e.nargs : i <= Len(e.pairs) => e.pairs[i][2] = o.vals[i] THEN {} ELSE {"vals"})
